@@ -285,13 +285,13 @@ func evaluate(cs *caseSpec) (fs []finding, st *evalStats, harnessErr string) {
 				commits = append(commits, f.asCommit)
 			}
 		}
-		path := "endorse-sig-fallback"
+		path := "via-endorse-sig-fallback"
 		var gp uint32
 		vf.Catch(func() { gp, _ = vbft.VerifGetCommitConsensus(commits, cs.C, cs.N) })
 		if gp == p {
-			path = "commit-msgs"
+			path = "via-commit-msgs"
 		}
-		st.c("declared_via_" + path)
+		st.c("declared_" + path)
 		credited := len(V)
 		if !V[p] {
 			credited++
@@ -341,7 +341,7 @@ func evaluate(cs *caseSpec) (fs []finding, st *evalStats, harnessErr string) {
 			vl = append(vl, int(i))
 		}
 		sort.Ints(vl)
-		fs = append(fs, finding{Key: "commit-declared-without-quorum:" + path + ":" + cause,
+		fs = append(fs, finding{Key: "commit-declared-without-quorum:" + cause + ":" + path,
 			What: fmt.Sprintf("N=%d C=%d: commitDone declared proposer %d (forEmpty=%v) after message %d, but only %d peer(s) %v have a verifiable signature on its proposal (%d with the proposer credited) < quorum %d",
 				cs.N, cs.C, p, forEmpty, step+1, len(V), vl, credited, Q),
 			Step: step, Info: map[string]interface{}{"declared_proposer": p, "for_empty": forEmpty, "verifiable_signers": vl, "credited": credited, "quorum": Q, "path": path}})
@@ -805,8 +805,8 @@ func main() {
 	r.Require("honest_case_not_declared", 50)
 	r.Require("honest_case_declared_with_quorum", 50)
 	r.Require("declared_with_exactly_quorum", 50)
-	r.Require("declared_via_commit-msgs", 50)
-	r.Require("declared_via_endorse-sig-fallback", 20)
+	r.Require("declared_via-commit-msgs", 50)
+	r.Require("declared_via-endorse-sig-fallback", 20)
 	r.Require("forged_case_not_declared", 20)
 	r.Require("commitDone_true_for_empty", 10)
 	r.Require("commit_refused_by_pool_as_duplicate", 50)
